@@ -3,6 +3,7 @@
    _submit_function_to_separate_process (Gen.SharedRes); block allocation: Model/Exec.v. *)
 From Coq Require Import ZArith List Bool Arith.
 From EL Require Import Base.PyLib Model.Exec Model.ExecInv Model.StepExec Proofs.ExecSafe Proofs.StepSafe Proofs.C10Proofs Gen.SharedRes.
+From EL Require Import Model.LiveSpec Proofs.StepLive Proofs.StepLiveCor.
 Import ListNotations.
 
 (* with max_cores = m: at every reachable state, for every program, every mix of per-call slot
@@ -51,3 +52,39 @@ Theorem C07_guard_workers :
     wait_guard_workers (VDict act) (VInt m) = Ok (VBool (Z.gtb (Z.of_nat (List.length act) + 1) m)).
 Proof. exact guard_workers. Qed.
 Print Assumptions C07_guard_workers.
+
+(* ---- progress (Proofs/StepLive.v): the ceiling never starves a request that fits ---- *)
+(* a request that fits the limit never leaves the dispatcher in a wait loop with nothing to wait
+   for (the state in which it would spin for ever) *)
+Theorem C07_fitting_request_never_spins :
+  forall c n prog x i, fits c -> wf_prog n prog -> xreach c (xinit n prog) x -> disp x <> DSpin i.
+Proof. exact spin_unreachable. Qed.
+Print Assumptions C07_fitting_request_never_spins.
+
+(* while the dispatcher waits for a slot and none of the calls it waits for is done, some other
+   thread or process can move (the calls holding the slots are being worked on) *)
+Theorem C07_waiting_dispatcher_is_not_alone :
+  forall c n prog x,
+    wf_prog n prog -> xreach c (xinit n prog) x ->
+    d_polling x = true -> exists t, t <> TD /\ In t (xenabled c x).
+Proof. exact dispatcher_never_spins_alone. Qed.
+Print Assumptions C07_waiting_dispatcher_is_not_alone.
+
+(* every step other than a fruitless polling pass of the dispatcher decreases a natural-number
+   measure: together with the previous theorem, under a fair scheduler every request that fits is
+   eventually started and the program comes to rest *)
+Theorem C07_progress_measure :
+  forall c n prog x t x' l,
+    wf_prog n prog -> xreach c (xinit n prog) x -> xstep c x t = Some (x', l) ->
+    (t = TD -> d_polling x = false) -> xmu n x' < xmu n x.
+Proof. exact xstep_decreases. Qed.
+Print Assumptions C07_progress_measure.
+
+(* and at rest everything submitted has been executed: every future is done *)
+Theorem C07_all_requests_served_at_rest :
+  forall c n prog x,
+    xnofail c -> fits c -> wf_prog n prog -> xreach c (xinit n prog) x ->
+    xenabled c x = [] ->
+    forall i, In i (subm (base x)) -> fdone (getf (base x) i) = true.
+Proof. intros c n prog x H1 H2 H3 H4 H5. exact (proj1 (proj2 (step_rest c n prog x H1 H2 H3 H4 H5))). Qed.
+Print Assumptions C07_all_requests_served_at_rest.
